@@ -105,6 +105,10 @@ func ghostSort(ty string) (string, error) {
 		// a ghost copy of a slice header: indexing reads the current heap
 		return SSlice, nil
 	}
+	if strings.HasPrefix(strings.TrimSpace(ty), "*") {
+		// a ghost pointer (names an object; fields are read from the current heap)
+		return SInt, nil
+	}
 	return "", fmt.Errorf("unsupported ghost type %q", ty)
 }
 
@@ -121,7 +125,7 @@ func (se *specEnv) ghost(name string) (specVal, bool, error) {
 		return specVal{}, true, err
 	}
 	sv := specVal{t: se.e.lookup(se.cur, "G$"+name, srt)}
-	if srt == SSlice {
+	if srt == SSlice || strings.HasPrefix(strings.TrimSpace(g.Type), "*") {
 		sv.typ = se.e.prog.resolveType(g.PkgPath, strings.TrimSpace(g.Type))
 		if sv.typ == nil {
 			return specVal{}, true, fmt.Errorf("ghost %s: cannot resolve type %s", name, g.Type)
@@ -211,6 +215,12 @@ func (se *specEnv) eval(x SExpr) (specVal, error) {
 		var names []string
 		for _, v := range n.Vars {
 			names = append(names, ne.binds[v.Name].t.S)
+		}
+		// "every index but e is unchanged" is an array equality: quantifier-free, so covers stay decidable
+		if n.Forall && len(names) == 1 {
+			if t, ok := frameAsStore(body.S, names[0]); ok {
+				return specVal{t: Term{t, SBool}}, nil
+			}
 		}
 		pats := triggerPatterns(body.S, names)
 		if len(pats) > 0 {
@@ -1325,4 +1335,36 @@ func (se *specEnv) debugValue(name string) (ssa.Value, bool) {
 		}
 	}
 	return pick, pick != nil
+}
+
+
+// frameAsStore recognises  (=> (not (= q e)) (= (select A q) (select B q)))  with q not in e, A, B and
+// returns the equivalent  (= A (store B e (select A e))).
+func frameAsStore(body, q string) (string, bool) {
+	pre := "(=> (not (= " + q + " "
+	if !strings.HasPrefix(body, pre) || !strings.HasSuffix(body, ")") {
+		return "", false
+	}
+	rest := body[len(pre):]
+	ex := readSexp(rest)
+	if ex == "" || containsWord(ex, q) {
+		return "", false
+	}
+	rest = rest[len(ex):]
+	if !strings.HasPrefix(rest, ")) (= (select ") {
+		return "", false
+	}
+	rest = rest[len(")) (= (select "):]
+	a := readSexp(rest)
+	rest = rest[len(a):]
+	if a == "" || containsWord(a, q) || !strings.HasPrefix(rest, " "+q+") (select ") {
+		return "", false
+	}
+	rest = rest[len(" "+q+") (select "):]
+	b := readSexp(rest)
+	rest = rest[len(b):]
+	if b == "" || containsWord(b, q) || rest != " "+q+")))" {
+		return "", false
+	}
+	return fmt.Sprintf("(= %s (store %s %s (select %s %s)))", a, b, ex, a, ex), true
 }
